@@ -586,7 +586,7 @@ def gen_perf_spec(rng):
 def build_perf(spec):
     import partitura.performance as P
 
-    return P.Performance("perf", [build_ppart(s) for s in spec["pparts"]], performer="x", title="t",
+    return P.Performance([build_ppart(s) for s in spec["pparts"]], id="perf", performer="x", title="t",
                          ensure_unique_tracks=bool(spec.get("unique_tracks")))
 
 
@@ -627,3 +627,411 @@ def build_alignment(spec):
             if sid in pids:
                 al.append({"label": "insertion", "performance_id": sid})
     return al, ppart, part
+
+
+# ---------------------------------------------------------------------------------------
+# 4. Read-only entry points.  Each takes the argument tuple and a parameter dict (JSON-able,
+# part of the replay) and returns the raw result.  kind: which argument shapes it accepts.
+
+MAPS = ["beat_map", "inv_beat_map", "quarter_map", "inv_quarter_map", "quarter_duration_map", "time_signature_map",
+        "key_signature_map", "measure_map", "measure_number_map", "metrical_position_map", "clef_map"]
+VIEWS = ["notes", "notes_tied", "measures", "rests", "repeats", "key_sigs", "time_sigs", "dynamics", "articulations",
+         "first_point", "last_point", "number_of_staves", "measure_number_map", "quarter_durations", "note_array_default"]
+
+
+def _parts_of(x):
+    import partitura.score as S
+
+    if isinstance(x, S.Part):
+        return [x]
+    if isinstance(x, S.Score):
+        return list(x.parts)
+    return list(S.iter_parts(x))
+
+
+def _times_of(part):
+    ts = sorted({int(tp.t) for tp in part._points})
+    if not ts:
+        return np.array([0, 1])
+    out = set(ts)
+    for a, b in zip(ts, ts[1:]):
+        out.add((a + b) // 2)
+    out.add(ts[-1] + 3)
+    return np.array(sorted(out))
+
+
+def ep_save_musicxml(args, prm):
+    import partitura as pt
+
+    return pt.save_musicxml(args[0], out=None)
+
+
+def ep_save_score_midi(args, prm):
+    import partitura as pt
+
+    buf = io.BytesIO()
+    pt.save_score_midi(args[0], buf, part_voice_assign_mode=prm.get("mode", 0), anacrusis_behavior=prm.get("anacrusis", "shift"))
+    return buf.getvalue()
+
+
+def ep_note_array(args, prm):
+    import partitura.score as S
+    from partitura.utils.music import note_array_from_part_list
+
+    x = args[0]
+    kw = dict(prm.get("flags", {}))
+    if isinstance(x, (S.Part, S.Score)):
+        return x.note_array(**kw)
+    return note_array_from_part_list(x, **kw)
+
+
+def ep_rest_array(args, prm):
+    import partitura.score as S
+    from partitura.utils.music import rest_array_from_part_list
+
+    x = args[0]
+    kw = dict(prm.get("rflags", {}))
+    if isinstance(x, S.Part):
+        return x.rest_array(**kw)
+    return rest_array_from_part_list(_parts_of(x), **kw)
+
+
+def ep_ensure_notearray(args, prm):
+    from partitura.utils.music import ensure_notearray
+
+    return ensure_notearray(args[0])
+
+
+def ep_pianoroll(args, prm):
+    from partitura.utils.music import compute_pianoroll
+
+    return compute_pianoroll(args[0], time_div=prm.get("time_div", "auto"), return_idxs=prm.get("return_idxs", False),
+                             onset_only=prm.get("onset_only", False), piano_range=prm.get("piano_range", False))
+
+
+def ep_maps(args, prm):
+    out = []
+    for p in _parts_of(args[0]):
+        ts = _times_of(p)
+        for m in MAPS:
+            try:
+                f = getattr(p, m)
+                out.append([m, f(ts), f(int(ts[0]))])
+            except Exception as e:  # a crashing map is not C20's business; its effect on the argument is
+                out.append([m, "raised", type(e).__name__])
+    return out
+
+
+def ep_pretty(args, prm):
+    return [p.pretty() for p in _parts_of(args[0])]
+
+
+def ep_views(args, prm):
+    out = []
+    for p in _parts_of(args[0]):
+        for v in VIEWS:
+            try:
+                if v == "quarter_durations":
+                    r = p.quarter_durations()
+                elif v == "note_array_default":
+                    r = p.note_array()
+                elif v == "measure_number_map":
+                    r = p.measure_number_map(_times_of(p))
+                else:
+                    r = getattr(p, v)
+                if isinstance(r, list):
+                    r = [[type(o).__name__, getattr(o, "id", None), o.start.t if getattr(o, "start", None) is not None else None] for o in r]
+                elif hasattr(r, "t") and hasattr(r, "starting_objects"):
+                    r = ["tp", r.t]
+                out.append([v, r])
+            except Exception as e:
+                out.append([v, "raised", type(e).__name__])
+    return out
+
+
+def ep_unfold_max(args, prm):
+    import partitura.score as S
+
+    return S.unfold_part_maximal(args[0], update_ids=prm.get("update_ids", True), ignore_leaps=prm.get("ignore_leaps", True))
+
+
+def ep_unfold_min(args, prm):
+    import partitura.score as S
+
+    return S.unfold_part_minimal(args[0])
+
+
+def ep_iter_unfolded(args, prm):
+    import partitura.score as S
+
+    out = []
+    for p in _parts_of(args[0]):
+        for k, u in enumerate(S.iter_unfolded_parts(p, update_ids=prm.get("update_ids", True))):
+            out.append(u)
+            if k >= 5:
+                break
+    return out
+
+
+def ep_paths(args, prm):
+    import partitura.score as S
+
+    out = []
+    for p in _parts_of(args[0]):
+        out.append([str(x) for x in S.get_paths(p, no_repeats=prm.get("no_repeats", False), all_repeats=prm.get("all_repeats", False),
+                                                ignore_leap_info=prm.get("ignore_leaps", True))][:64])
+    return out
+
+
+def ep_segments(args, prm):
+    import partitura.score as S
+
+    out = []
+    for p in _parts_of(args[0]):
+        segs = p.segments
+        out.append([[s.id, list(s.to), list(s.await_to), s.type, s.info, s.force_full_sequence, s.start.t, s.end.t] for s in segs])
+        out.append(S.pretty_segments(p))
+    return out
+
+
+def ep_spelling(args, prm):
+    from partitura.musicanalysis import estimate_spelling
+
+    return [estimate_spelling(p) for p in _parts_of(args[0])]
+
+
+def ep_voices(args, prm):
+    from partitura.musicanalysis import estimate_voices
+
+    return [estimate_voices(p, monophonic_voices=prm.get("mono", True)) for p in _parts_of(args[0])]
+
+
+def ep_key(args, prm):
+    from partitura.musicanalysis import estimate_key
+
+    return [estimate_key(p) for p in _parts_of(args[0])]
+
+
+def ep_transpose(args, prm):
+    import partitura.score as S
+    from partitura.utils.music import transpose
+
+    num, qual, direction = prm.get("interval", [2, "M", "up"])
+    return transpose(args[0], S.Interval(num, qual, direction))
+
+
+def ep_iterate(args, prm):
+    """the container protocol used as a client would: nested loops, list(), len, indexing."""
+    c = args[0]
+    if not hasattr(c, "__len__") or isinstance(c, list):
+        return None
+    n = len(c)
+    items = [c[i] for i in range(n)]
+    pairs = [(items.index(a), items.index(b)) for a in c for b in c]
+    return [n, [items.index(a) for a in c], pairs, [items.index(a) for a in reversed(c)] if n else []]
+
+
+def ep_save_performance_midi(args, prm):
+    import partitura as pt
+
+    buf = io.BytesIO()
+    pt.save_performance_midi(args[0], buf, mpq=prm.get("mpq", 500000), ppq=prm.get("ppq", 480),
+                             merge_tracks_save=prm.get("merge", False))
+    return buf.getvalue()
+
+
+def ep_perf_note_array(args, prm):
+    from partitura.utils.music import note_array_from_part_list
+
+    x = args[0]
+    if isinstance(x, list):
+        return note_array_from_part_list(x)
+    return x.note_array()
+
+
+def ep_perf_views(args, prm):
+    import partitura.performance as P
+
+    x = args[0]
+    out = []
+    if isinstance(x, P.Performance):
+        out.append(["num_tracks", x.num_tracks])
+    pps = [x] if isinstance(x, P.PerformedPart) else list(x.performedparts) if isinstance(x, P.Performance) else list(x)
+    for pp in pps:
+        out.append([pp.sustain_pedal_threshold, pp.num_tracks if hasattr(pp, "num_tracks") else None, str(pp.notes[0]) if pp.notes else None])
+    return out
+
+
+def ep_matchfile(args, prm):
+    from partitura.io.exportmatch import matchfile_from_alignment
+
+    al, ppart, part = args
+    return matchfile_from_alignment(al, ppart, part, assume_part_unfolded=prm.get("assume_unfolded", False),
+                                    performer="p", composer="c", piece="x")
+
+
+def ep_save_match(args, prm):
+    import partitura as pt
+
+    al, ppart, part = args
+    path = os.path.join(prm["_work"], "c20_out.match")
+    pt.save_match(al, ppart, part, out=path, assume_unfolded=prm.get("assume_unfolded", False))
+    with open(path, "rb") as f:
+        data = f.read()
+    os.remove(path)
+    return data
+
+
+def ep_unfold_alignment(args, prm):
+    import partitura.score as S
+
+    al, ppart, part = args
+    return S.unfold_part_alignment(part, al)
+
+
+ENTRY = {
+    # name: (function, kinds)
+    "save_musicxml": (ep_save_musicxml, ("score",)),
+    "save_score_midi": (ep_save_score_midi, ("score",)),
+    "note_array": (ep_note_array, ("score",)),
+    "rest_array": (ep_rest_array, ("score",)),
+    "ensure_notearray": (ep_ensure_notearray, ("score1",)),
+    "compute_pianoroll": (ep_pianoroll, ("score", "perf")),
+    "maps": (ep_maps, ("score",)),
+    "pretty": (ep_pretty, ("score",)),
+    "views": (ep_views, ("score",)),
+    "unfold_part_maximal": (ep_unfold_max, ("score1",)),
+    "unfold_part_minimal": (ep_unfold_min, ("score1",)),
+    "iter_unfolded_parts": (ep_iter_unfolded, ("score",)),
+    "get_paths": (ep_paths, ("score",)),
+    "segments": (ep_segments, ("score",)),
+    "estimate_spelling": (ep_spelling, ("score",)),
+    "estimate_voices": (ep_voices, ("score",)),
+    "estimate_key": (ep_key, ("score",)),
+    "transpose": (ep_transpose, ("score1",)),
+    "iterate": (ep_iterate, ("score", "perf")),
+    "save_performance_midi": (ep_save_performance_midi, ("perf",)),
+    "perf_note_array": (ep_perf_note_array, ("perf",)),
+    "perf_views": (ep_perf_views, ("perf",)),
+    "matchfile_from_alignment": (ep_matchfile, ("align",)),
+    "save_match": (ep_save_match, ("align",)),
+    "unfold_part_alignment": (ep_unfold_alignment, ("align",)),
+}
+
+
+def entries_for(kind, arg):
+    import partitura.score as S
+
+    out = []
+    for name, (f, kinds) in ENTRY.items():
+        if kind in kinds:
+            out.append(name)
+        elif kind == "score" and "score1" in kinds and isinstance(arg, (S.Part, S.Score)):
+            out.append(name)
+    return out
+
+
+def call_entry(name, args, prm):
+    """-> ('ok', canonical result) | ('raised', exception type name)."""
+    f = ENTRY[name][0]
+    try:
+        r = f(args, prm)
+    except RecursionError:
+        return ("raised", "RecursionError")
+    except Exception as e:
+        return ("raised", type(e).__name__ + ":" + str(e)[:80])
+    return ("ok", canon_result(r))
+
+
+def gen_params(rng, work):
+    flags = {k: True for k in ["include_pitch_spelling", "include_key_signature", "include_time_signature", "include_metrical_position",
+                               "include_grace_notes", "include_staff", "include_divs_per_quarter"] if rng.random() < 0.4}
+    rflags = {k: True for k in ["include_pitch_spelling", "include_key_signature", "include_time_signature", "include_metrical_position",
+                                "include_grace_notes", "include_staff", "collapse"] if rng.random() < 0.3}
+    return {"flags": flags, "rflags": rflags, "mode": rng.choice([0, 0, 1, 2, 3, 4, 5]), "anacrusis": rng.choice(["shift", "pad_bar", "time_sig_change"]),
+            "time_div": rng.choice(["auto", 4, 8]), "return_idxs": rng.random() < 0.3, "onset_only": rng.random() < 0.2,
+            "piano_range": rng.random() < 0.2, "update_ids": rng.random() < 0.7, "ignore_leaps": rng.random() < 0.7,
+            "no_repeats": rng.random() < 0.2, "all_repeats": rng.random() < 0.3, "mono": rng.random() < 0.7,
+            "interval": rng.choice([[2, "M", "up"], [3, "m", "down"], [5, "P", "up"], [1, "A", "up"]]),
+            "mpq": rng.choice([500000, 400000]), "ppq": rng.choice([480, 96]), "merge": rng.random() < 0.3,
+            "assume_unfolded": rng.random() < 0.3, "_work": work}
+
+
+# ---------------------------------------------------------------------------------------
+# 5. One case: build the argument, call the entry points in a seeded order, watch the
+# fingerprint and the results.
+
+
+def build_case(case):
+    """case = {'kind': 'score'|'perf'|'align'|'file', 'spec': ...} -> (kind, args tuple)."""
+    import partitura as pt
+    import partitura.score as S
+
+    k = case["kind"]
+    if k == "score":
+        sc = build_score(case["spec"])
+        how = case["spec"].get("as", "score")
+        if how == "part":
+            return "score", (sc.parts[0],)
+        if how == "list":
+            return "score", (list(sc.parts),)
+        return "score", (sc,)
+    if k == "perf":
+        pf = build_perf(case["spec"])
+        how = case["spec"].get("as", "performance")
+        if how == "ppart":
+            return "perf", (pf.performedparts[0],)
+        if how == "list":
+            return "perf", (list(pf.performedparts),)
+        return "perf", (pf,)
+    if k == "align":
+        return "align", tuple(build_alignment(case["spec"]))
+    if k == "file":
+        path = os.path.join(core.REPO, "tests", "data", case["path"])
+        if case["loader"] == "score":
+            return "score", (pt.load_score(path),)
+        if case["loader"] == "perf":
+            return "perf", (pt.load_performance(path),)
+        if case["loader"] == "match":
+            perf, al, sc = pt.load_match(path, create_score=True)
+            return "align", (al, perf[0], sc[0])
+    raise ValueError(k)
+
+
+def run_case(case, schedule, prm, fresh_checks=()):
+    """Run `schedule` (list of entry names) on the built case.
+    -> list of findings: dicts {type, entry, fields, detail}, plus trace rows for the Coq trace checker."""
+    kind, args = build_case(case)
+    findings = []
+    trace = []
+    fp0 = fingerprint(args)
+    fp_prev = fp0
+    d_prev = fp_digest(fp0)
+    results = {}
+    dirty = False
+    for step, name in enumerate(schedule):
+        res = call_entry(name, args, prm)
+        fp = fingerprint(args)
+        d = fp_digest(fp)
+        rd = hashlib.sha1(json.dumps(res, sort_keys=True, default=str).encode()).hexdigest()
+        trace.append((name, d_prev, d, rd))
+        if d != d_prev:
+            paths, desc = describe_diff(fp_prev, fp)
+            findings.append({"type": "mutates", "entry": name, "step": step, "fields": sorted({field_of(p) for p in paths}),
+                             "npaths": len(paths), "detail": desc, "outcome": res[0]})
+            dirty = True
+        elif name in results and results[name] != res and not dirty:
+            findings.append({"type": "not_repeatable", "entry": name, "step": step, "fields": [],
+                             "detail": [json.dumps(results[name], default=str)[:300], json.dumps(res, default=str)[:300]], "outcome": res[0]})
+        results.setdefault(name, res)
+        fp_prev, d_prev = fp, d
+    # each call's result is a function of the initial store: compare with a call on a fresh, untouched build
+    for name in fresh_checks:
+        if name not in results or dirty:
+            continue
+        k2, args2 = build_case(case)
+        res2 = call_entry(name, args2, prm)
+        if res2 != results[name]:
+            findings.append({"type": "history_dependent", "entry": name, "step": -1, "fields": [],
+                             "detail": [json.dumps(results[name], default=str)[:300], json.dumps(res2, default=str)[:300]], "outcome": res2[0]})
+    return findings, trace, results
